@@ -29,7 +29,7 @@ RULE = (
     "threshold, or |E-thr| < 3 dB, or width != 2."
 )
 MUST_HIT = ["boundary_sw1", "boundary_sw2", "boundary_sw4", "any_vs_mix_disagree", "negative_index",
-            "reject_index", "reject_name", "mono_ignores_selection", "zero_window", "window_length_around_power_of_two"]
+            "reject_index", "reject_name", "mono_ignores_selection", "zero_window", "window_length_around_power_of_two", "typed_or_other_container", "window_of_100000_samples"]
 ASSUMPTIONS = [
     "for |x|=10^k constant windows numpy's sqrt/mean/log10 are exact on this build (verified at design time; a mismatch would show as a violation of the boundary cases, to be investigated)",
     "decision not compared when the exact energy lies within 1e-9 dB of the threshold",
@@ -42,6 +42,13 @@ POWS = {1: 2, 2: 4, 4: 9}
 
 def build(case):
     sw, ch = case["sw"], case["ch"]
+    if "huge" in case:
+        # a very long window: a short motif repeated (sums of squares beyond 2**31 / 2**63)
+        motif, n = case["huge"]
+        vals = (motif * (n * ch // len(motif) + 1))[: n * ch]
+        import array
+
+        return array.array({1: "b", 2: "h", 4: "i"}[sw], vals).tobytes()
     if "pow" in case:
         a = 10 ** case["pow"]
         n = case["n"]
@@ -68,11 +75,33 @@ def expect_reject(ch, uc):
     return True
 
 
+def wrap(data, sw, kind):
+    """the window as another bytes-like container (the repository's own tests pass array('h'))"""
+    if kind in (None, "bytes"):
+        return data
+    if kind == "bytearray":
+        return bytearray(data)
+    if kind == "memoryview":
+        return memoryview(data)
+    import array
+
+    code = {1: "b", 2: "h", 4: "i"}[sw]
+    if kind == "array":
+        return array.array(code, data)
+    if kind == "memoryview_cast":
+        return memoryview(data).cast(code)
+    if kind == "numpy":
+        import numpy as np
+
+        return np.frombuffer(data, dtype={1: "<i1", 2: "<i2", 4: "<i4"}[sw])
+    raise HarnessError(kind)
+
+
 def verdict(thr, sw, ch, uc, data, case):
     """-> ('value', bool) or ('ValueError', exc)"""
     try:
         v = AudioEnergyValidator(thr, sw, ch, use_channel=uc)
-        r = v.is_valid(data)
+        r = v.is_valid(wrap(data, sw, case.get("container")))
     except ValueError as exc:
         return "ValueError", exc
     try:
@@ -136,6 +165,10 @@ def check_case(case, rec):
         raise Violation(f"active at threshold {hi!r} but inactive at lower threshold {lo!r}", case)
     if case.get("magic_len"):
         classes.add("window_length_around_power_of_two")
+    if case.get("container") not in (None, "bytes"):
+        classes.add("typed_or_other_container")
+    if len(data) // (sw * ch) >= 100000:
+        classes.add("window_of_100000_samples")
     near = abs(float(E) - t1) < 3
     disagree = False
     if ch > 1:
@@ -163,6 +196,12 @@ def explicit_cases():
         {"sw": 2, "ch": 2, "vals": [1, 2], "uc": 2, "thr": ["abs", 0.0], "thr2": ["abs", 0.0]},
         {"sw": 2, "ch": 3, "vals": [1, 2, 3], "uc": -4, "thr": ["abs", 0.0], "thr2": ["abs", 0.0]},
         {"sw": 4, "ch": 2, "vals": [1, 2], "uc": "left", "thr": ["abs", 0.0], "thr2": ["abs", 0.0]},
+        {"sw": 1, "ch": 1, "huge": [[-128], 140000], "uc": None, "thr": ["abs", 30.0], "thr2": ["rel", -0.5]},
+        {"sw": 1, "ch": 2, "huge": [[100, -100, 99, 3], 230000], "uc": None, "thr": ["rel", -1e-3], "thr2": ["abs", 0.0]},
+        {"sw": 2, "ch": 1, "huge": [[-32768, 32767], 140000], "uc": None, "thr": ["rel", -1e-3], "thr2": ["rel", 0.5]},
+        {"sw": 4, "ch": 2, "huge": [[-2147483648, 2147483647, 5, -7], 100000], "uc": "mix", "thr": ["rel", -1e-3], "thr2": ["rel", 3.0]},
+        {"sw": 2, "ch": 2, "vals": [1000, -1000, 900, 5, -20, 30], "uc": 1, "thr": ["rel", -0.5], "thr2": ["rel", 0.5], "container": "array"},
+        {"sw": 4, "ch": 1, "vals": [100000, -5, 7, 12], "uc": None, "thr": ["rel", -0.5], "thr2": ["rel", 0.5], "container": "memoryview_cast"},
         {"sw": 2, "ch": 2, "vals": [300, -2, -300, 5] * 512, "uc": None, "thr": ["rel", -0.5], "thr2": ["rel", 0.5], "magic_len": 1024},
         {"sw": 1, "ch": 1, "vals": [100, -100, 7] * 85 + [100, -100], "uc": None, "thr": ["abs", 30.0], "thr2": ["rel", 1e-6], "magic_len": 257},
     ]
@@ -214,7 +253,8 @@ def strategy(draw, maxn):
                 vals.append((big if (i + c) % 2 else -big) if c == loudch else draw(st.integers(-2, 2)))
     else:
         vals = draw(st.lists(sample_value(sw), min_size=n * ch, max_size=n * ch))
-    return {"sw": sw, "ch": ch, "vals": vals, "uc": uc, "thr": draw(thr_spec()), "thr2": draw(thr_spec())}
+    return {"sw": sw, "ch": ch, "vals": vals, "uc": uc, "thr": draw(thr_spec()), "thr2": draw(thr_spec()),
+            "container": draw(st.sampled_from(["bytes", "bytes", "bytearray", "memoryview", "array", "memoryview_cast", "numpy"]))}
 
 
 def jobs(tier, seed):
